@@ -75,7 +75,7 @@ CHECKS = {
    "Yield points sit outside the mutex only; exhaustive refers to schedules per (prefix, tuple) at yield-point granularity.",
    "runtime monitoring: linearizability checking of recorded histories (porcupine) + invariant checks under an enumerating yield-point scheduler", "5/C16"),
  "C01": ("L1 block-manager driver", "exploration",
-   "Held on every handled message of the explored sessions: the real blockManager over real on-disk header stores is fed seeded hostile header/inv/peer-event sessions; after EVERY message the whole stored chain is re-read through the public store API and validated by an independent reference validator (linkage, PoW, exact retarget bits, MTP, future limit, checkpoints) and by-hash/by-height/tip/locator answers are cross-checked. Exploration is the right level: the quantifier is over unbounded message sequences; reach comes from generated trees, adversarial batches and many seeds.",
+   "Held on every handled message of the explored sessions: the real blockManager over real on-disk header stores is fed seeded hostile header/inv/peer-event sessions; after EVERY message the whole stored chain is re-read through the public store API and validated by an independent reference validator (linkage, PoW, exact retarget bits, MTP, future limit, checkpoints) and by-hash/by-height/tip/locator answers are cross-checked. Sessions include a database whose index entries sit in the legacy (pre-sub-bucket) location and batches that return to a previously abandoned branch. A second part runs the COMPLETE client against wire peers (first peer trickling a fork / an invalid chain below a checkpoint, then growth and reorganisations) while a monitor cross-checks the public lookups GetBlockHash -> GetBlockHeader -> GetBlockHeight inside quiescent brackets and reads the whole chain back through them at every quiescent point. Exploration is the right level: the quantifier is over unbounded message sequences; reach comes from generated trees, adversarial batches and many seeds.",
    "Reference validator cross-checked against btcd in the harness self-test; real network timing is covered by C04, not here; paths the sessions never drive are not covered.",
    "runtime monitoring: reference-model validation of real store contents after every handled message", "5/C01"),
  "C02": ("L1 block-manager driver", "exploration",
@@ -121,7 +121,7 @@ def main():
         "engines": [
             {"name": "L1 block-manager driver", "path": "harness/internal/l1", "serves_properties": ["C01", "C02", "C03", "C19"],
              "kind_free_text": "real blockManager + real headerfs stores, scripted network, synchronous message-at-a-time driving, store read-back after every step"},
-            {"name": "L2 network simulation", "path": "harness/internal/l2", "serves_properties": ["C03", "C04", "C05", "C06", "C09", "C10", "C13", "C15", "C17", "C18", "C19"],
+            {"name": "L2 network simulation", "path": "harness/internal/l2", "serves_properties": ["C01", "C03", "C04", "C05", "C06", "C09", "C10", "C11", "C12", "C13", "C15", "C17", "C18", "C19"],
              "kind_free_text": "the complete real ChainService through its public API against scripted wire peers reached through Config.Dialer; one child process per scenario"},
             {"name": "crash runner", "path": "harness/internal/c08", "serves_properties": ["C08"],
              "kind_free_text": "crash images at every File/DB boundary point and real SIGKILL of child processes, recovery oracle on reopen"},
